@@ -17,7 +17,7 @@ def run(tier):
     traces = c.drive(exe, sets, tag="small")
     # 3. random histories (2-D sides 2..12, 3-D), iterate+erase interleaved
     rsh = 4 if quick else 16
-    for k, sd in enumerate(vlib.seeds(tier, 3)):
+    for k, sd in enumerate(vlib.seeds(tier, 6)):
         traces += c.drive(exe, [["random", "@OUT", tier, sd, i, rsh] for i in range(rsh)], tag="rand%d" % k)
     bads = c.validate("KdTree", "Trace_KdTree", traces, timeout=2400, xmx="6g")
     c.judge(bads)
